@@ -222,7 +222,14 @@ int toInt(const std::string& s, char scientificNotation)
     throw Exception("TextTools::toInt(). Invalid number specification: " + s);
   std::size_t e = s.find(scientificNotation);
   if (e == std::string::npos)
-    return fromString<int>(s);
+  {
+    std::istringstream iss(s);
+    int value = 0;
+    iss >> value;
+    if (iss.fail()) // The digits do not fit in an int (the extraction then gives the largest int).
+      throw Exception("TextTools::toInt(). Number out of range: " + s);
+    return value;
+  }
   // Scientific notation: the stream extraction of an int stops at the exponent.
   std::size_t p = e + 1;
   if (s[p] == '+')
